@@ -178,6 +178,7 @@ impl<'a> ElfSectionIter<'a> {
 // `impl Iterator for ElfSectionIter` (R4)
 //@extractall multiboot2/src/elf_sections.rs :: impl<'a> Iterator for ElfSectionIter<'a>
 //@  type Item: skip
+//@  fn *: nocontract
 //@  fn *: rules R2
 //@  fn *: sigrewrite /Self::Item/ => /ElfSection<'a>/ x*
 //@  fn next: ret r
